@@ -41,6 +41,7 @@ type PropSpec struct {
 	Stubs       []string  `json:"stubs"`
 	Outside     []string  `json:"outside"`
 	Validate    int       `json:"validate"` // passing paths to validate natively per run (quick)
+	UnreachedOK []string  `json:"unreached_ok"` // labels of shared helpers that belong to modes this property does not run
 }
 
 type Spec struct {
@@ -65,7 +66,7 @@ type KnownFile struct {
 }
 
 func loadSpec() (*Spec, error) {
-	data, err := os.ReadFile(filepath.Join(verifRoot, "harness", "spec.json"))
+	data, err := os.ReadFile(filepath.Join(verifRoot, "harness", "spec.gen.json"))
 	if err != nil {
 		return nil, err
 	}
@@ -334,7 +335,13 @@ func cmdCheck(args []string) int {
 	}
 	for k := range allLabels {
 		l := k[strings.Index(k, ":")+1:]
-		if !labelReachedAnywhere[l] {
+		okSkip := false
+		for _, u := range ps.UnreachedOK {
+			if u == l {
+				okSkip = true
+			}
+		}
+		if !labelReachedAnywhere[l] && !okSkip {
 			reachFail = append(reachFail, l)
 		}
 	}
